@@ -1067,3 +1067,126 @@ M.contract('exactly_lib.impls.instructions.assert_.process_output.impl.exit_code
            },
            raises={HardErrorException: {}},
            raises_only=())
+
+
+# ============================================================================== non-zero exit code of run / $ / %
+
+from exactly_lib.impls.instructions.multi_phase.utils import instruction_from_parts_for_executing_program as run_instr
+from exactly_lib.impls.instructions.multi_phase.utils import instruction_part_utils
+from exactly_lib.impls.instructions.multi_phase import run as run_instruction
+from exactly_lib.test_case.result import pfh, sh, svh
+
+P_RUN = 'exactly_lib.impls.instructions.multi_phase.utils.instruction_from_parts_for_executing_program'
+P_IPU = 'exactly_lib.impls.instructions.multi_phase.utils.instruction_part_utils'
+
+EXECUTION_RESULT = Inst(run_instr.ExecutionResultAndStderr, _tuple=[Int, Opt(Str), Any_, Any_])
+
+M.contract(P_RUN + ':result_to_sh', inline=True, params=dict(result=EXECUTION_RESULT),
+           ensures={'non-zero exit code => HARD_ERROR, zero => success (phases other than [assert])':
+                    lambda result, ret: (ret[0] is not None) if result[0] != 0 else (ret[0] is None),
+                    'a SuccessOrHardError': lambda ret: type(ret) is sh.SuccessOrHardError},
+           raises_only=())
+
+M.contract(P_RUN + ':result_to_pfh', inline=True, params=dict(result=EXECUTION_RESULT),
+           ensures={'non-zero exit code => FAIL, zero => PASS ([assert])': lambda result, ret:
+           ret.status is (pfh.PassOrFailOrHardErrorEnum.FAIL if result[0] != 0 else pfh.PassOrFailOrHardErrorEnum.PASS)},
+           raises_only=())
+
+RESULT_TRANSLATOR = Inst(run_instr.ResultTranslator)
+M.contract(P_RUN + ':ResultTranslator.translate_for_non_assertion', inline=True,
+           params=dict(self=RESULT_TRANSLATOR, main_result=EXECUTION_RESULT),
+           ensures={'non-zero exit code => HARD_ERROR': lambda main_result, result:
+           (result[0] is not None) if main_result[0] != 0 else (result[0] is None)}, raises_only=())
+M.contract(P_RUN + ':ResultTranslator.translate_for_assertion', inline=True,
+           params=dict(self=RESULT_TRANSLATOR, main_result=EXECUTION_RESULT),
+           ensures={'non-zero exit code => FAIL': lambda main_result, result:
+           result.status is (pfh.PassOrFailOrHardErrorEnum.FAIL if main_result[0] != 0
+                             else pfh.PassOrFailOrHardErrorEnum.PASS)}, raises_only=())
+
+IGNORING_TRANSLATOR = Inst(instruction_part_utils.MainStepResultTranslatorForUnconditionalSuccess)
+M.contract(P_IPU + ':MainStepResultTranslatorForUnconditionalSuccess.translate_for_non_assertion', inline=True,
+           params=dict(self=IGNORING_TRANSLATOR, error_message=EXECUTION_RESULT),
+           ensures={'-ignore-exit-code: always success': lambda result: result[0] is None}, raises_only=())
+M.contract(P_IPU + ':MainStepResultTranslatorForUnconditionalSuccess.translate_for_assertion', inline=True,
+           params=dict(self=IGNORING_TRANSLATOR, error_message=EXECUTION_RESULT),
+           ensures={'-ignore-exit-code: always PASS': lambda result: result.status is pfh.PassOrFailOrHardErrorEnum.PASS},
+           raises_only=())
+
+
+class OptionParserI(Interface):
+    methods = {'parse': Method(returns=Bool, event='option-is-present')}
+
+
+M.contract('exactly_lib.impls.instructions.multi_phase.run:_InstructionPartsParser._parse_result_translator',
+           params=dict(self=Inst(run_instruction._InstructionPartsParser, _embryo_parser=Any_,
+                                 _IGNORE_EXIT_CODE_OPTION_PARSER=Iface(OptionParserI)), source=Any_),
+           returns=Any_,
+           ensures={'the exit code is ignored iff the option is given': lambda result, trace:
+           type(result) is (instruction_part_utils.MainStepResultTranslatorForUnconditionalSuccess
+                            if [e[2] for e in trace if e[0] == 'option-is-present:returned'][0]
+                            else run_instr.ResultTranslator)},
+           raises_only=())
+
+
+# --- which translation a phase uses
+
+from exactly_lib.impls.instructions.assert_.utils import instruction_from_parts as assert_from_parts
+from exactly_lib.impls.instructions.setup.utils import instruction_from_parts as setup_from_parts
+from exactly_lib.impls.instructions.before_assert.utils import instruction_from_parts as before_assert_from_parts
+from exactly_lib.impls.instructions.cleanup.utils import instruction_from_parts as cleanup_from_parts
+from exactly_lib.impls.instructions.multi_phase.utils.instruction_parts import InstructionParts, MainStepExecutor
+
+AS_ASSERTION = 'apply_as_assertion'
+AS_NON_ASSERTION = 'apply_as_non_assertion'
+
+
+class MainStepExecutorI(Interface):
+    target_class = MainStepExecutor
+    methods = {AS_ASSERTION: Method(returns=Any_, event=AS_ASSERTION),
+               AS_NON_ASSERTION: Method(returns=Any_, event=AS_NON_ASSERTION)}
+
+
+class SvhValidatorI(Interface):
+    methods = {'validate_pre_sds_if_applicable': Method(returns=Iface(lambda: SvhI)),
+               'validate_post_sds_if_applicable': Method(returns=Iface(lambda: SvhI))}
+
+
+class SvhI(Interface):
+    attrs = {'is_success': Bool, 'failure_message': Any_}
+
+
+class EnvWithPathResolvingI(Interface):
+    attrs = {'path_resolving_environment': Any_, 'path_resolving_environment_pre_or_post_sds': Any_}
+
+
+class SdvValidatorI(Interface):
+    methods = {'validate_pre_sds_if_applicable': Method(returns=Opt(Any_)),
+               'validate_post_sds_if_applicable': Method(returns=Opt(Any_))}
+
+
+INSTRUCTION_PARTS = Inst(InstructionParts, _tuple=[Iface(SdvValidatorI), Iface(MainStepExecutorI), Any_])
+
+
+def applied_as(trace):
+    return [e[0] for e in trace if e[0] in (AS_ASSERTION, AS_NON_ASSERTION)]
+
+
+M.contract('exactly_lib.impls.instructions.assert_.utils.instruction_from_parts:AssertPhaseInstructionFromParts.main',
+           params=dict(self=Inst(assert_from_parts.AssertPhaseInstructionFromParts, _parts=INSTRUCTION_PARTS,
+                                 _validator=Iface(SvhValidatorI)),
+                       environment=Iface(EnvWithPathResolvingI), settings=Any_, os_services=Any_),
+           returns=Any_,
+           ensures={'[assert]: the main step is applied AS ASSERTION (non-zero exit code => FAIL)':
+                    lambda trace: applied_as(trace) in ([], [AS_ASSERTION])},
+           raises_only=())
+
+for _mod, _cls, _extra in ((setup_from_parts, 'SetupPhaseInstructionFromParts', dict(settings_builder=Any_)),
+                           (before_assert_from_parts, 'BeforeAssertPhaseInstructionFromParts', {}),
+                           (cleanup_from_parts, 'CleanupPhaseInstructionFromParts', dict(previous_phase=Any_))):
+    M.contract('%s:%s.main' % (_mod.__name__, _cls),
+               params=dict(self=Inst(getattr(_mod, _cls), setup=INSTRUCTION_PARTS, _validator=Iface(SvhValidatorI)),
+                           environment=Iface(EnvWithPathResolvingI), settings=Any_, os_services=Any_, **_extra),
+               returns=Any_,
+               ensures={'phases other than [assert]: the main step is applied AS NON-ASSERTION (non-zero exit code => '
+                        'HARD_ERROR)': lambda trace: applied_as(trace) in ([], [AS_NON_ASSERTION])},
+               raises_only=())
